@@ -177,6 +177,13 @@ pub fn spaces(tier: Tier) -> Vec<Space<'static>> {
     let l = if tier.thorough() { 7 } else { 6 };
     let nt = TOKENS.len() as u64;
     let tot: u64 = (0..=l).map(|k| nt.pow(k)).sum();
+    // every Unicode scalar value as a plain name, inside a plain name and inside a quoted name
+    sp.push(Space::new("every scalar value in a plain name, between name characters, and quoted", crate::univ::N_CHARS, |i, acc| {
+        let c = crate::univ::nth_char(i);
+        for t in [format!("{{{}}}", c), format!("{{a{}b}}", c), format!("{{\"{}\"}}", c), format!("{{1,{}x}}", c)] {
+            judge_raw(t.as_bytes(), acc);
+        }
+    }));
     sp.push(Space::new("token-soup", tot.div_ceil(256), move |blk, acc| {
         for idx in (blk * 256)..((blk + 1) * 256).min(tot) {
             let mut i = idx;
